@@ -35,6 +35,19 @@ func GenCatalogue() []GenLayout {
 		tl(VideoRep("V300", 90000, 3000, alt)),
 		tl(AudioRep("A48", 1024, AudioDursFollowing(alt, 90000, 48000, 1024, 0))))
 
+	// representations with different numbers of segments per loop in one asset
+	v4s := UniformDurs(2, 360000)
+	add("ok", "2 x 4 s video, 4 x 2 s stpp subtitles, 8 x 1 s thumbnails, audio following the video", "g_mixed_n",
+		VideoRep("V1", 90000, 3000, v4s),
+		AudioRep("A48", 1024, AudioDursFollowing(v4s, 90000, 48000, 1024, 0)),
+		StppRep("sub_en", 1000, UniformDurs(4, 2000)),
+		ThumbsRep("thumbs", 1, 8, 1))
+	add("ok", "6 x 1 s video (timescale 12800) next to 3 x 2 s video (90000), 2 x 3 s subtitles, 3 x 2 s thumbnails", "g_mixed_n2",
+		VideoRep("V1", 12800, 512, UniformDurs(6, 12800)),
+		VideoRep("V2", 90000, 3000, UniformDurs(3, 180000)),
+		StppRep("sub_en", 1000, UniformDurs(2, 3000)),
+		ThumbsRep("thumbs", 1, 3, 2))
+
 	avgf := FrameDurs(3000, 60, 30, 90, 60) // 2 s, 1 s, 3 s, 2 s
 	add("ok", "varying durations 2 s / 1 s / 3 s / 2 s whose first segment has exactly the mean duration, $Time$", "g_avgfirst_tl",
 		tl(VideoRep("V300", 90000, 3000, avgf)),
